@@ -2,7 +2,7 @@
 import random
 
 from hypothesis import strategies as st
-from hypothesis.stateful import RuleBasedStateMachine, rule, initialize, invariant
+from hypothesis.stateful import RuleBasedStateMachine, rule, initialize, invariant, precondition
 
 from ..core import Result, _Violation
 from .. import gen, rng
@@ -10,7 +10,7 @@ from .. import gen, rng
 LEVEL = 'exploration'
 RULE = ("(a) Histories: a Hypothesis RuleBasedStateMachine per run picks storage class (Batch, Interval, Sequence, UniformReservoir, "
         "GeometricReservoir), capacity 1..6, store_targets and (Geometric) p in {0, 1, default, grid, arbitrary float}; every "
-        "update carries a unique serial number in x and in y (some arrivals come WITHOUT a target: update(x) / y=None; in a quarter of the configurations some arrivals carry the very same dict OBJECT as the arrival before - a repeated reading - and count as arrivals of their own, told apart by their targets), the library's random draws come from a Hypothesis-generated script "
+        "update carries a unique serial number in x and in y (the storage may be forked mid-stream - copy.deepcopy or a pickle round trip - after which the copy carries on and the original must stay exactly as it was; `storage.update` is looked up per call or ONCE and reused as a bound method; some arrivals come WITHOUT a target: update(x) / y=None; in a quarter of the configurations some arrivals carry the very same dict OBJECT as the arrival before - a repeated reading - and count as arrivals of their own, told apart by their targets), the library's random draws come from a Hypothesis-generated script "
         "(extremes 0.0 and 1-2^-53 included). After EVERY update: stored serials pairwise distinct and a subset of arrivals, "
         "len == min(n, capacity) (Batch: n), targets aligned with instances or absent, Batch == stream, Interval == last size, "
         "Sequence == last one. (b) Exhaustive: every outcome of the draws (choice-point enumeration; uniforms on a 3-cell grid) for "
@@ -125,19 +125,26 @@ class Feeder:
     def __init__(self, cfg):
         self.cfg = cfg
         self.last = None
+        self.push = None
 
     def send(self, storage, i):
         cfg = self.cfg
         if not _resent(cfg, i):
             self.last = {'id': i, 'v': i * 10}
         x = self.last
+        upd = storage.update
+        if cfg.get('cached_update'):
+            # `push = storage.update` looked up ONCE (before the first arrival) and reused, as map(storage.update, ...) would
+            if self.push is None or self.push.__self__ is not storage:
+                self.push = storage.update
+            upd = self.push
         if _is_none(cfg, i) and not cfg.get('resend'):
             if i % 2:
-                storage.update(x)
+                upd(x)
             else:
-                storage.update(x, None)
+                upd(x, None)
         else:
-            storage.update(x, ['y', i])
+            upd(x, ['y', i])
 
     def newest_stored(self, storage, i):
         xs, ys = storage.get_data()
@@ -146,12 +153,33 @@ class Feeder:
         return any(x['id'] == obj_id(self.cfg, i) for x in xs)
 
 
+def _snapshot(storage):
+    xs, ys = storage.get_data()
+    return [dict(x) for x in xs], [list(y) if isinstance(y, list) else y for y in ys], len(storage)
+
+
+def fork(storage, kind):
+    """A checkpoint / what-if copy taken mid-stream: the copy carries on with the stream, the original must stay as it was."""
+    import copy
+    import pickle
+    if kind == 'pickle':
+        return pickle.loads(pickle.dumps(storage))
+    return copy.deepcopy(storage)
+
+
 def drive(cfg, n, on_step=None):
     storage = make(cfg)
     replaced = False
     feeder = Feeder(cfg)
+    left_behind = None
     for i in range(1, n + 1):
+        if cfg.get('fork_at') and i == cfg['fork_at'] + 1:
+            left_behind = (storage, _snapshot(storage), i - 1)
+            storage = fork(storage, cfg.get('fork_kind', 'deepcopy'))
         feeder.send(storage, i)
+        if left_behind is not None and _snapshot(left_behind[0]) != left_behind[1]:
+            return ('fork-aliases', f'arrival {i} was given to a {cfg.get("fork_kind", "deepcopy")} copy taken after {left_behind[2]} arrivals, '
+                                    f'and the ORIGINAL storage changed: {left_behind[1]} -> {_snapshot(left_behind[0])}'), replaced
         err = check_state(cfg, storage, i, None)
         if err:
             return err, replaced
@@ -204,6 +232,10 @@ def configs(draw):
         cfg['none_targets'] = draw(st.lists(st.integers(0, 1), min_size=1, max_size=5))   # pattern of arrivals without a target
     if 'none_targets' not in cfg and draw(st.integers(0, 3)) == 0:
         cfg['resend'] = draw(st.lists(st.integers(0, 1), min_size=1, max_size=4).filter(any))   # arrivals that carry the previous dict OBJECT again
+    cfg['cached_update'] = draw(st.booleans())
+    if draw(st.integers(0, 2)) == 0:
+        cfg['fork_at'] = draw(st.integers(1, 8))
+        cfg['fork_kind'] = draw(st.sampled_from(['deepcopy', 'deepcopy', 'pickle']))
     if c == 'geometric':
         cfg['p'] = draw(st.one_of(st.sampled_from([None, 0, 1, 1.0, 0.0, 0.5, 0.25, 0.75]),
                                   st.floats(0, 1, allow_nan=False)))
@@ -218,9 +250,11 @@ class StorageMachine(RuleBasedStateMachine):
     def __init__(self):
         super().__init__()
         self.cfg = None
+        self.left_behind = None
 
     @initialize(cfg=configs(), script=gen.script)
     def setup(self, cfg, script):
+        cfg = {k: v for k, v in cfg.items() if k not in ('fork_at', 'fork_kind')}      # in the machine, forking is a rule
         self.cfg = cfg
         self.script = script
         self.src = rng.Scripted(script)
@@ -229,6 +263,7 @@ class StorageMachine(RuleBasedStateMachine):
         self.n = 0
         self.replaced = False
         self.feeder = Feeder(cfg)
+        self.left_behind = None
 
     @rule()
     def update(self):
@@ -239,11 +274,22 @@ class StorageMachine(RuleBasedStateMachine):
         if cap is not None and self.n > cap and self.feeder.newest_stored(self.storage, self.n):
             self.replaced = True
 
+    @precondition(lambda self: self.cfg is not None and self.n > 0 and self.left_behind is None)
+    @rule(kind=st.sampled_from(['deepcopy', 'deepcopy', 'pickle']))
+    def fork(self, kind):
+        self.left_behind = (self.storage, _snapshot(self.storage), self.n, kind)
+        self.storage = fork(self.storage, kind)
+        self.cfg = dict(self.cfg, fork_at=self.n, fork_kind=kind)      # the replayable case carries the fork
+
     @invariant()
     def holds(self):
         if self.cfg is None:
             return
         err = check_state(self.cfg, self.storage, self.n, None)
+        if not err and self.left_behind is not None and _snapshot(self.left_behind[0]) != self.left_behind[1]:
+            lb = self.left_behind
+            err = ('fork-aliases', f'after {self.n} arrivals: the ORIGINAL of a {lb[3]} copy taken after {lb[2]} arrivals changed: '
+                                   f'{lb[1]} -> {_snapshot(lb[0])}')
         case = {'cfg': self.cfg, 'script': self.script, 'n': self.n}
         if err:
             key = f"C07:{self.cfg['cls']}:{err[0]}"
